@@ -91,156 +91,142 @@ fn ghost_ok(post: &Abs, pre: &Abs, front: Option<(u8, u8)>, gone: Option<u8>) ->
     not_gone && rest.subseq_of(pre)
 }
 
-#[kani::proof]
-#[kani::unwind(6)]
-fn arc_put_resident_hit() {
-    let (mut c, pre) = any_arc();
-    let k: u8 = kani::any();
-    let v: u8 = kani::any();
-    kani::assume(pre.recent.has(k) || pre.frequent.has(k));
-    kani::cover!(pre.recent.has(k), "arc put: recent hit");
-    kani::cover!(pre.frequent.has(k) && pre.frequent.n >= 2, "arc put: frequent hit among several");
-    let r = c.put(k, v);
-    let (post, wf) = c.verif_check();
-    arc_inv!(c, wf, pre, post);
-    assert!(arc_put_truthful(&pre, &post, k, v, pr_of(&r)), "[C12.result][C12.delta] put on a resident key reports Update(old); nothing leaves");
-    if let Some(i) = pre.recent.pos(k) {
-        assert!(pr_of(&r) == PR::Update(pre.recent.v[i]), "[C12.result] put on a recent entry returns Update(old)");
-        assert!(post.recent.view_eq(&pre.recent.remove_at(i)) && post.frequent.view_eq(&pre.frequent.push_front(k, v)),
-            "[C09.promote][C02.value] a second access by put moves the entry from recent to the front of frequent with the new value");
-    } else {
-        let i = pre.frequent.pos(k).unwrap();
-        assert!(pr_of(&r) == PR::Update(pre.frequent.v[i]), "[C12.result] put on a frequent entry returns Update(old)");
-        assert!(post.frequent.view_eq(&pre.frequent.touch(i, Some(v))) && post.recent == pre.recent, "[C09.frequent][C02.value] put on a frequent entry refreshes it with the new value");
-    }
-    assert!(post.p == pre.p && post.recent_evict == pre.recent_evict && post.frequent_evict == pre.frequent_evict, "[C09.p] a resident hit leaves p and the ghost lists alone");
-    c.verif_forget();
-}
 
-#[kani::proof]
-#[kani::unwind(6)]
-fn arc_put_recent_ghost_hit() {
-    let (mut c, pre) = any_arc();
-    let k: u8 = kani::any();
-    let v: u8 = kani::any();
-    kani::assume(pre.recent_evict.has(k));
-    let full = pre.recent.n + pre.frequent.n >= pre.size;
-    kani::cover!(!full, "arc B1 hit: room");
-    kani::cover!(full && pre.frequent.n == 0, "arc B1 hit: full, frequent empty");
-    kani::cover!(full && pre.recent.n == 0, "arc B1 hit: full, recent empty");
-    kani::cover!(full && pre.recent_evict.n == pre.size, "arc B1 hit: full and B1 full");
-    kani::cover!(pre.frequent_evict.n > pre.recent_evict.n, "arc B1 hit: delta > 1");
-    let r = c.put(k, v);
-    let (post, wf) = c.verif_check();
-    arc_inv!(c, wf, pre, post);
-    let (b1, b2) = (pre.recent_evict.n, pre.frequent_evict.n);
-    let delta = if b2 / b1 > 1 { b2 / b1 } else { 1 };
-    let p2 = if pre.p + delta > pre.size { pre.size } else { pre.p + delta };
-    assert!(post.p == p2, "[C09.p] a hit on the recent ghost list raises p by max(1, |frequent ghosts| / |recent ghosts|), capped at the cache size");
-    let old = pre.recent_evict.val_of(k).unwrap();
-    assert!(pr_of(&r) == PR::Update(old) && arc_put_truthful(&pre, &post, k, v, pr_of(&r)), "[C12.result][C12.delta] reviving a ghost returns Update(old); no resident entry leaves unreported");
-    if !full {
-        assert!(post.recent == pre.recent && post.frequent.view_eq(&pre.frequent.push_front(k, v)), "[C09.revive][C02.value] the ghost key is revived into the front of frequent");
-        assert!(ghost_ok(&post.recent_evict, &pre.recent_evict, None, Some(k)) && ghost_ok(&post.frequent_evict, &pre.frequent_evict, None, None), "[C09.ghost] ghost lists only lose entries");
-    } else {
-        let from_recent = victim_from_recent(pre.recent.n, pre.frequent.n, p2, false);
-        if from_recent {
-            let vic = pre.recent.last().unwrap();
-            assert!(post.recent.view_eq(&pre.recent.drop_last()) && post.frequent.view_eq(&pre.frequent.push_front(k, v)),
-                "[C09.victim][C09.revive] full: recent longer than p gives up its least-recent entry; the ghost key is revived into the front of frequent");
-            assert!(ghost_ok(&post.recent_evict, &pre.recent_evict, Some(vic), Some(k)) && ghost_ok(&post.frequent_evict, &pre.frequent_evict, None, None),
-                "[C09.ghost] the victim is remembered at the front of the matching ghost list");
-        } else {
-            let vic = pre.frequent.last().unwrap();
-            assert!(post.recent == pre.recent && post.frequent.view_eq(&pre.frequent.drop_last().push_front(k, v)),
-                "[C09.victim][C09.revive] full: otherwise frequent gives up its least-recent entry (falling back to the non-empty list)");
-            assert!(ghost_ok(&post.frequent_evict, &pre.frequent_evict, Some(vic), None) && ghost_ok(&post.recent_evict, &pre.recent_evict, None, Some(k)),
-                "[C09.ghost] the victim is remembered at the front of the matching ghost list");
-        }
-    }
-    c.verif_forget();
-}
 
-#[kani::proof]
-#[kani::unwind(6)]
-fn arc_put_frequent_ghost_hit() {
-    let (mut c, pre) = any_arc();
-    let k: u8 = kani::any();
-    let v: u8 = kani::any();
-    kani::assume(pre.frequent_evict.has(k));
-    let full = pre.recent.n + pre.frequent.n >= pre.size;
-    kani::cover!(!full, "arc B2 hit: room");
-    kani::cover!(full && pre.frequent.n == 0, "arc B2 hit: full, frequent empty");
-    kani::cover!(full && pre.recent.n == 0, "arc B2 hit: full, recent empty");
-    kani::cover!(full && pre.frequent_evict.n == pre.size, "arc B2 hit: full and B2 full");
-    kani::cover!(pre.recent_evict.n > pre.frequent_evict.n, "arc B2 hit: delta > 1");
-    let r = c.put(k, v);
-    let (post, wf) = c.verif_check();
-    arc_inv!(c, wf, pre, post);
-    let (b1, b2) = (pre.recent_evict.n, pre.frequent_evict.n);
-    let delta = if b1 / b2 > 1 { b1 / b2 } else { 1 };
-    let p2 = if delta >= pre.p { 0 } else { pre.p - delta };
-    assert!(post.p == p2, "[C09.p] a hit on the frequent ghost list lowers p by max(1, |recent ghosts| / |frequent ghosts|), floored at 0");
-    let old = pre.frequent_evict.val_of(k).unwrap();
-    assert!(pr_of(&r) == PR::Update(old) && arc_put_truthful(&pre, &post, k, v, pr_of(&r)), "[C12.result][C12.delta] reviving a ghost returns Update(old); no resident entry leaves unreported");
-    if !full {
-        assert!(post.recent == pre.recent && post.frequent.view_eq(&pre.frequent.push_front(k, v)), "[C09.revive][C02.value] the ghost key is revived into the front of frequent");
-        assert!(ghost_ok(&post.frequent_evict, &pre.frequent_evict, None, Some(k)) && ghost_ok(&post.recent_evict, &pre.recent_evict, None, None), "[C09.ghost] ghost lists only lose entries");
-    } else {
-        let from_recent = victim_from_recent(pre.recent.n, pre.frequent.n, p2, true);
-        if from_recent {
-            let vic = pre.recent.last().unwrap();
-            assert!(post.recent.view_eq(&pre.recent.drop_last()) && post.frequent.view_eq(&pre.frequent.push_front(k, v)),
-                "[C09.victim][C09.revive] full: recent longer than p (or equal to p on a frequent-ghost hit) gives up its least-recent entry");
-            assert!(ghost_ok(&post.recent_evict, &pre.recent_evict, Some(vic), None) && ghost_ok(&post.frequent_evict, &pre.frequent_evict, None, Some(k)),
-                "[C09.ghost] the victim is remembered at the front of the matching ghost list");
-        } else {
-            let vic = pre.frequent.last().unwrap();
-            assert!(post.recent == pre.recent && post.frequent.view_eq(&pre.frequent.drop_last().push_front(k, v)),
-                "[C09.victim][C09.revive] full: otherwise frequent gives up its least-recent entry (falling back to the non-empty list)");
-            assert!(ghost_ok(&post.frequent_evict, &pre.frequent_evict, Some(vic), Some(k)) && ghost_ok(&post.recent_evict, &pre.recent_evict, None, None),
-                "[C09.ghost] the victim is remembered at the front of the matching ghost list");
-        }
-    }
-    c.verif_forget();
-}
 
+
+
+
+
+
+// One harness for `put`: CBMC executes every branch of the real `put` symbolically whatever the key's
+// location is assumed to be, so the five cases share one run; the postcondition is selected by where the key
+// was in the pre-state.
 #[kani::proof]
 #[kani::unwind(6)]
-fn arc_put_new() {
+fn arc_put() {
     let (mut c, pre) = any_arc();
     let k: u8 = kani::any();
     let v: u8 = kani::any();
-    kani::assume(holders(&[&pre.recent, &pre.frequent, &pre.recent_evict, &pre.frequent_evict], k) == 0);
     let full = pre.recent.n + pre.frequent.n >= pre.size;
-    kani::cover!(!full, "arc new key: room");
-    kani::cover!(full && pre.frequent.n == 0 && pre.recent.n <= pre.p, "arc new key: full, frequent empty, recent not over p (fallback)");
-    kani::cover!(full && pre.recent.n > pre.p, "arc new key: full, victim from recent");
-    kani::cover!(full && pre.recent.n <= pre.p && pre.frequent.n > 0, "arc new key: full, victim from frequent");
-    kani::cover!(pre.recent_evict.n == pre.size && pre.frequent_evict.n == pre.size, "arc new key: both ghost lists full");
+    let in_resident = pre.recent.has(k) || pre.frequent.has(k);
+    let in_b1 = pre.recent_evict.has(k);
+    let in_b2 = pre.frequent_evict.has(k);
+    let is_new = !in_resident && !in_b1 && !in_b2;
+
+    kani::cover!((in_resident) && (pre.recent.has(k)), "arc put: recent hit");
+    kani::cover!((in_resident) && (pre.frequent.has(k) && pre.frequent.n >= 2), "arc put: frequent hit among several");
+
+    kani::cover!((in_b1) && (!full), "arc B1 hit: room");
+    kani::cover!((in_b1) && (full && pre.frequent.n == 0), "arc B1 hit: full, frequent empty");
+    kani::cover!((in_b1) && (full && pre.recent.n == 0), "arc B1 hit: full, recent empty");
+    kani::cover!((in_b1) && (full && pre.recent_evict.n == pre.size), "arc B1 hit: full and B1 full");
+    kani::cover!((in_b1) && (pre.frequent_evict.n > pre.recent_evict.n), "arc B1 hit: delta > 1");
+
+    kani::cover!((in_b2) && (!full), "arc B2 hit: room");
+    kani::cover!((in_b2) && (full && pre.frequent.n == 0), "arc B2 hit: full, frequent empty");
+    kani::cover!((in_b2) && (full && pre.recent.n == 0), "arc B2 hit: full, recent empty");
+    kani::cover!((in_b2) && (full && pre.frequent_evict.n == pre.size), "arc B2 hit: full and B2 full");
+    kani::cover!((in_b2) && (pre.recent_evict.n > pre.frequent_evict.n), "arc B2 hit: delta > 1");
+
+    kani::cover!((is_new) && (!full), "arc new key: room");
+    kani::cover!((is_new) && (full && pre.frequent.n == 0 && pre.recent.n <= pre.p), "arc new key: full, frequent empty, recent not over p (fallback)");
+    kani::cover!((is_new) && (full && pre.recent.n > pre.p), "arc new key: full, victim from recent");
+    kani::cover!((is_new) && (full && pre.recent.n <= pre.p && pre.frequent.n > 0), "arc new key: full, victim from frequent");
+    kani::cover!((is_new) && (pre.recent_evict.n == pre.size && pre.frequent_evict.n == pre.size), "arc new key: both ghost lists full");
     let r = c.put(k, v);
     let (post, wf) = c.verif_check();
     arc_inv!(c, wf, pre, post);
-    assert!(pr_of(&r) == PR::Put && arc_put_truthful(&pre, &post, k, v, pr_of(&r)), "[C12.result][C12.delta] a new key is a Put: the demoted entry stays retained as a ghost, only ghosts leave (silently)");
-    assert!(post.p == pre.p, "[C09.p] a brand-new key does not move p");
-    if !full {
-        assert!(post.recent.view_eq(&pre.recent.push_front(k, v)) && post.frequent == pre.frequent, "[C09.enter][C02.value] entries seen once sit at the front of the recent list");
-        assert!(ghost_ok(&post.recent_evict, &pre.recent_evict, None, None) && ghost_ok(&post.frequent_evict, &pre.frequent_evict, None, None), "[C09.ghost] ghost lists only lose entries");
-    } else {
-        let from_recent = victim_from_recent(pre.recent.n, pre.frequent.n, pre.p, false);
-        if from_recent {
-            let vic = pre.recent.last().unwrap();
-            assert!(post.recent.view_eq(&pre.recent.drop_last().push_front(k, v)) && post.frequent == pre.frequent,
-                "[C09.victim][C09.enter] full: recent longer than p gives up its least-recent entry, the new key enters the front of recent");
-            assert!(post.recent_evict.has(vic.0) && post.recent_evict.subseq_of(&pre.recent_evict.push_front(vic.0, vic.1).with_cap(pre.size)) || pre.recent_evict.n == NMAX,
-                "[C09.ghost] the victim is remembered in the matching ghost list");
+    if in_resident {
+        assert!(arc_put_truthful(&pre, &post, k, v, pr_of(&r)), "[C12.result][C12.delta] put on a resident key reports Update(old); nothing leaves");
+        if let Some(i) = pre.recent.pos(k) {
+            assert!(pr_of(&r) == PR::Update(pre.recent.v[i]), "[C12.result] put on a recent entry returns Update(old)");
+            assert!(post.recent.view_eq(&pre.recent.remove_at(i)) && post.frequent.view_eq(&pre.frequent.push_front(k, v)),
+                "[C09.promote][C02.value] a second access by put moves the entry from recent to the front of frequent with the new value");
         } else {
-            let vic = pre.frequent.last().unwrap();
-            assert!(post.recent.view_eq(&pre.recent.push_front(k, v)) && post.frequent.view_eq(&pre.frequent.drop_last()),
-                "[C09.victim][C09.enter] full: otherwise frequent gives up its least-recent entry (falling back to the non-empty list)");
-            assert!(post.frequent_evict.has(vic.0) && post.frequent_evict.subseq_of(&pre.frequent_evict.push_front(vic.0, vic.1).with_cap(pre.size)) || pre.frequent_evict.n == NMAX,
-                "[C09.ghost] the victim is remembered in the matching ghost list");
+            let i = pre.frequent.pos(k).unwrap();
+            assert!(pr_of(&r) == PR::Update(pre.frequent.v[i]), "[C12.result] put on a frequent entry returns Update(old)");
+            assert!(post.frequent.view_eq(&pre.frequent.touch(i, Some(v))) && post.recent == pre.recent, "[C09.frequent][C02.value] put on a frequent entry refreshes it with the new value");
         }
+        assert!(post.p == pre.p && post.recent_evict == pre.recent_evict && post.frequent_evict == pre.frequent_evict, "[C09.p] a resident hit leaves p and the ghost lists alone");
+
+    } else if in_b1 {
+        let (b1, b2) = (pre.recent_evict.n, pre.frequent_evict.n);
+        let delta = if b2 / b1 > 1 { b2 / b1 } else { 1 };
+        let p2 = if pre.p + delta > pre.size { pre.size } else { pre.p + delta };
+        assert!(post.p == p2, "[C09.p] a hit on the recent ghost list raises p by max(1, |frequent ghosts| / |recent ghosts|), capped at the cache size");
+        let old = pre.recent_evict.val_of(k).unwrap();
+        assert!(pr_of(&r) == PR::Update(old) && arc_put_truthful(&pre, &post, k, v, pr_of(&r)), "[C12.result][C12.delta] reviving a ghost returns Update(old); no resident entry leaves unreported");
+        if !full {
+            assert!(post.recent == pre.recent && post.frequent.view_eq(&pre.frequent.push_front(k, v)), "[C09.revive][C02.value] the ghost key is revived into the front of frequent");
+            assert!(ghost_ok(&post.recent_evict, &pre.recent_evict, None, Some(k)) && ghost_ok(&post.frequent_evict, &pre.frequent_evict, None, None), "[C09.ghost] ghost lists only lose entries");
+        } else {
+            let from_recent = victim_from_recent(pre.recent.n, pre.frequent.n, p2, false);
+            if from_recent {
+                let vic = pre.recent.last().unwrap();
+                assert!(post.recent.view_eq(&pre.recent.drop_last()) && post.frequent.view_eq(&pre.frequent.push_front(k, v)),
+                    "[C09.victim][C09.revive] full: recent longer than p gives up its least-recent entry; the ghost key is revived into the front of frequent");
+                assert!(ghost_ok(&post.recent_evict, &pre.recent_evict, Some(vic), Some(k)) && ghost_ok(&post.frequent_evict, &pre.frequent_evict, None, None),
+                    "[C09.ghost] the victim is remembered at the front of the matching ghost list");
+            } else {
+                let vic = pre.frequent.last().unwrap();
+                assert!(post.recent == pre.recent && post.frequent.view_eq(&pre.frequent.drop_last().push_front(k, v)),
+                    "[C09.victim][C09.revive] full: otherwise frequent gives up its least-recent entry (falling back to the non-empty list)");
+                assert!(ghost_ok(&post.frequent_evict, &pre.frequent_evict, Some(vic), None) && ghost_ok(&post.recent_evict, &pre.recent_evict, None, Some(k)),
+                    "[C09.ghost] the victim is remembered at the front of the matching ghost list");
+            }
+        }
+
+    } else if in_b2 {
+        let (b1, b2) = (pre.recent_evict.n, pre.frequent_evict.n);
+        let delta = if b1 / b2 > 1 { b1 / b2 } else { 1 };
+        let p2 = if delta >= pre.p { 0 } else { pre.p - delta };
+        assert!(post.p == p2, "[C09.p] a hit on the frequent ghost list lowers p by max(1, |recent ghosts| / |frequent ghosts|), floored at 0");
+        let old = pre.frequent_evict.val_of(k).unwrap();
+        assert!(pr_of(&r) == PR::Update(old) && arc_put_truthful(&pre, &post, k, v, pr_of(&r)), "[C12.result][C12.delta] reviving a ghost returns Update(old); no resident entry leaves unreported");
+        if !full {
+            assert!(post.recent == pre.recent && post.frequent.view_eq(&pre.frequent.push_front(k, v)), "[C09.revive][C02.value] the ghost key is revived into the front of frequent");
+            assert!(ghost_ok(&post.frequent_evict, &pre.frequent_evict, None, Some(k)) && ghost_ok(&post.recent_evict, &pre.recent_evict, None, None), "[C09.ghost] ghost lists only lose entries");
+        } else {
+            let from_recent = victim_from_recent(pre.recent.n, pre.frequent.n, p2, true);
+            if from_recent {
+                let vic = pre.recent.last().unwrap();
+                assert!(post.recent.view_eq(&pre.recent.drop_last()) && post.frequent.view_eq(&pre.frequent.push_front(k, v)),
+                    "[C09.victim][C09.revive] full: recent longer than p (or equal to p on a frequent-ghost hit) gives up its least-recent entry");
+                assert!(ghost_ok(&post.recent_evict, &pre.recent_evict, Some(vic), None) && ghost_ok(&post.frequent_evict, &pre.frequent_evict, None, Some(k)),
+                    "[C09.ghost] the victim is remembered at the front of the matching ghost list");
+            } else {
+                let vic = pre.frequent.last().unwrap();
+                assert!(post.recent == pre.recent && post.frequent.view_eq(&pre.frequent.drop_last().push_front(k, v)),
+                    "[C09.victim][C09.revive] full: otherwise frequent gives up its least-recent entry (falling back to the non-empty list)");
+                assert!(ghost_ok(&post.frequent_evict, &pre.frequent_evict, Some(vic), Some(k)) && ghost_ok(&post.recent_evict, &pre.recent_evict, None, None),
+                    "[C09.ghost] the victim is remembered at the front of the matching ghost list");
+            }
+        }
+
+    } else if is_new {
+        assert!(pr_of(&r) == PR::Put && arc_put_truthful(&pre, &post, k, v, pr_of(&r)), "[C12.result][C12.delta] a new key is a Put: the demoted entry stays retained as a ghost, only ghosts leave (silently)");
+        assert!(post.p == pre.p, "[C09.p] a brand-new key does not move p");
+        if !full {
+            assert!(post.recent.view_eq(&pre.recent.push_front(k, v)) && post.frequent == pre.frequent, "[C09.enter][C02.value] entries seen once sit at the front of the recent list");
+            assert!(ghost_ok(&post.recent_evict, &pre.recent_evict, None, None) && ghost_ok(&post.frequent_evict, &pre.frequent_evict, None, None), "[C09.ghost] ghost lists only lose entries");
+        } else {
+            let from_recent = victim_from_recent(pre.recent.n, pre.frequent.n, pre.p, false);
+            if from_recent {
+                let vic = pre.recent.last().unwrap();
+                assert!(post.recent.view_eq(&pre.recent.drop_last().push_front(k, v)) && post.frequent == pre.frequent,
+                    "[C09.victim][C09.enter] full: recent longer than p gives up its least-recent entry, the new key enters the front of recent");
+                assert!(post.recent_evict.subseq_of(&pre.recent_evict.push_front(vic.0, vic.1)) && ghost_ok(&post.frequent_evict, &pre.frequent_evict, None, None),
+                    "[C09.ghost] the victim goes to the front of the matching ghost list; ghost lists otherwise only lose entries (ARC may trim them silently)");
+            } else {
+                let vic = pre.frequent.last().unwrap();
+                assert!(post.recent.view_eq(&pre.recent.push_front(k, v)) && post.frequent.view_eq(&pre.frequent.drop_last()),
+                    "[C09.victim][C09.enter] full: otherwise frequent gives up its least-recent entry (falling back to the non-empty list)");
+                assert!(post.frequent_evict.subseq_of(&pre.frequent_evict.push_front(vic.0, vic.1)) && ghost_ok(&post.recent_evict, &pre.recent_evict, None, None),
+                    "[C09.ghost] the victim goes to the front of the matching ghost list; ghost lists otherwise only lose entries (ARC may trim them silently)");
+            }
+        }
+
     }
     c.verif_forget();
 }
@@ -396,4 +382,25 @@ fn arc_drop() {
     let (c, a) = any_arc();
     kani::cover!(a.recent.n > 0 && a.frequent_evict.n > 0, "arc drop: populated");
     drop(c);
+}
+
+// kind: proved (size ranges over all usize)
+#[kani::proof]
+#[kani::unwind(6)]
+fn arc_builder_finalize_contract() {
+    let size: usize = kani::any();
+    kani::cover!(size == 0, "arc ctor: zero");
+    kani::cover!(size == usize::MAX, "arc ctor: usize::MAX");
+    let b = AdaptiveCacheBuilder { size, recent_hasher: Some(PoisonHasher), recent_evict_hasher: Some(PoisonHasher), freq_hasher: Some(PoisonHasher), freq_evict_hasher: Some(PoisonHasher) };
+    let r: Result<Arc4, CacheError> = b.finalize();
+    match r {
+        Err(e) => assert!(size == 0 && e == CacheError::InvalidSize(0), "[C05.ctor] Err(InvalidSize(0)) exactly for size 0"),
+        Ok(c) => {
+            let (a, wf) = c.verif_check();
+            assert!(size != 0 && wf && a.size == size && a.p == 0, "[C05.ctor][C09.p] a fresh ARC cache has the requested size and p = 0");
+            assert!(a.recent == Abs::empty(size) && a.frequent == Abs::empty(size) && a.recent_evict == Abs::empty(size) && a.frequent_evict == Abs::empty(size),
+                "[C05.ctor][C03.wf][C01.cap] all four lists are empty with capacity `size`");
+            c.verif_forget();
+        }
+    }
 }
